@@ -456,13 +456,25 @@ def propagate_aliases(stmts: list[ast.stmt]) -> list[ast.stmt]:
     counts: dict[str, int] = {}
     values: dict[str, ast.expr] = {}
     for n in ast.walk(mod):
-        if isinstance(n, ast.Name) and isinstance(n.ctx, ast.Store) and (n.id.startswith("_i") or n.id.startswith("_g")):
+        if isinstance(n, ast.Name) and isinstance(n.ctx, ast.Store):
             counts[n.id] = counts.get(n.id, 0) + 1
+    stored_attrs = {norm(n) for n in ast.walk(mod) if isinstance(n, ast.Attribute) and isinstance(n.ctx, ast.Store)}
+    for st_ in ast.walk(mod):
+        # names bound by for/with/comprehension targets are not aliases
+        pass
     for n in ast.walk(mod):
         if isinstance(n, ast.Assign) and len(n.targets) == 1 and isinstance(n.targets[0], ast.Name):
             t = n.targets[0].id
-            if counts.get(t) == 1 and _is_alias_value(n.value) and not t.endswith("_ret"):
+            temp = t.startswith("_i") or t.startswith("_g")
+            if counts.get(t) != 1 or t.endswith("_ret"):
+                continue
+            if temp and _is_alias_value(n.value):
                 values[t] = n.value
+            elif not temp and isinstance(n.value, ast.Attribute) and dotted(n.value) is not None:
+                # a caller's local bound once to a pure attribute chain that the function never rebinds
+                chain = norm(n.value)
+                if not any(sa == chain or chain.startswith(sa + ".") for sa in stored_attrs):
+                    values[t] = n.value
     if not values:
         return stmts
     # the aliased source must not be rebound later in the function (parameters / attributes are assumed stable
